@@ -70,6 +70,37 @@ fn pp_pairs(args: &Args, thorough: bool, seed: u64, total: &mut Report, bounds: 
                 hays.for_range(0, hays.total(), |idx, h| {
                     check_hay(&mut ctx, r, &subjects, needle, h, Place::Plain, (idx % 8) as usize, Some(pair), idx);
                 });
+                // two occurrences (or an occurrence and a bare pair hit) at
+                // every distance, behind every lead of up to 12 vectors: long
+                // haystacks with more than one candidate
+                let mut h: Vec<u8> = vec![];
+                let mut idx = 1u64 << 40;
+                for pl in 0..=12 * n {
+                    for gap in 0..=2 * n + 1 {
+                        for second in 0..2 {
+                            for pr in [0usize, 9 * n] {
+                                h.clear();
+                                h.extend(std::iter::repeat(b'#').take(pl));
+                                h.extend_from_slice(needle);
+                                h.extend(std::iter::repeat(b'#').take(gap));
+                                if second == 0 {
+                                    h.extend_from_slice(needle);
+                                } else {
+                                    // only the pair bytes of a second occurrence
+                                    let mut decoy = vec![b'#'; needle.len()];
+                                    decoy[pair.index1() as usize] = needle[pair.index1() as usize];
+                                    decoy[pair.index2() as usize] = needle[pair.index2() as usize];
+                                    h.extend_from_slice(&decoy);
+                                }
+                                h.extend(std::iter::repeat(b'#').take(pr));
+                                if h.len() >= min {
+                                    idx += 1;
+                                    check_hay(&mut ctx, r, &subjects, needle, &h, Place::Plain, (idx % 8) as usize, Some(pair), idx);
+                                }
+                            }
+                        }
+                    }
+                }
             }
         });
         total.merge(rep);
@@ -131,6 +162,29 @@ fn pp_real(args: &Args, thorough: bool, seed: u64, total: &mut Report, bounds: &
             let (i1, i2) = (pair.index1() as usize, pair.index2() as usize);
             let (b1, b2) = (needle[i1], needle[i2]);
             let mut order = 0u64;
+            // two occurrences / an occurrence followed by a bare pair hit,
+            // behind leads of up to 12 vectors of 32 bytes
+            for pl in (0..=400usize).step_by(if thorough { 1 } else { 3 }) {
+                for gap in [0usize, 1, 7, 15, 16, 17, 31, 32, 33] {
+                    for second in 0..2 {
+                        h.clear();
+                        h.extend(std::iter::repeat(b'.').take(pl));
+                        h.extend_from_slice(needle);
+                        h.extend(std::iter::repeat(b'.').take(gap));
+                        if second == 0 {
+                            h.extend_from_slice(needle);
+                        } else {
+                            let mut decoy = vec![b'.'; m];
+                            decoy[i1] = b1;
+                            decoy[i2] = b2;
+                            h.extend_from_slice(&decoy);
+                        }
+                        h.extend_from_slice(&[b'.'; 40]);
+                        order += 1;
+                        check_hay(&mut ctx, r, &subjects, needle, &h, Place::Plain, (pl + gap) % 16, Some(pair), order);
+                    }
+                }
+            }
             for variant in 0..5 {
                 for pl in 0..=maxpad {
                     let prs: Vec<usize> = if variant == 0 { (0..=maxpad).collect() } else { vec![0, 1, 15, 16, 31, 33] };
